@@ -268,7 +268,13 @@ def memo_discipline(repo, run, rule_id, rels, what):
                     run.report(rule_id, rel, x, "`%s` is memoised (%s) on the identity / hash of its arguments but reads `%s`, an attribute of an argument (or of an element of one): "
                                "when that attribute is changed on the same object between calls -- an event function flagged terminal after a survey run -- the cached result of "
                                "the old value is returned" % (fn.name, "/".join(sorted(decos & MEMO_DECORATORS)), src(x)[:50]))
-            # (b) module-level registries
+            # (b) module-level registries, and mutable default arguments used the same way (`def f(x, _memo={})`)
+            pos_ = fn.args.posonlyargs + fn.args.args
+            default_dicts = {a.arg for a, d in list(zip(pos_[len(pos_) - len(fn.args.defaults):], fn.args.defaults)) + [
+                (a, d) for a, d in zip(fn.args.kwonlyargs, fn.args.kw_defaults) if d is not None]
+                if isinstance(d, ast.Dict) or (isinstance(d, ast.Call) and dotted(d.func) in ("dict", "collections.OrderedDict", "OrderedDict"))}
+            params = [p_ for p_ in params if p_ not in default_dicts]
+            module_dicts = set(module_dicts) | default_dicts
             used_dicts = {}
             for x in ast.walk(fn):
                 if isinstance(x, ast.Subscript) and isinstance(x.value, ast.Name) and x.value.id in module_dicts:
